@@ -1,6 +1,8 @@
 package vc
 
 import (
+	"go/constant"
+	"go/ast"
 	"fmt"
 	"go/token"
 	"go/types"
@@ -85,6 +87,7 @@ func (f *frame) call(n *node, in *ssa.Call) bool {
 				}
 			}
 		}
+		f.atCallAssertionsNamed(n, in, ifaceMethodID(recv, common.Method), "", append([]Val{recv}, args...))
 		x.safety(f, n, "nil", "invoke:"+common.Method.Name(), not(eq(recv.C[0], bvLit(0, 32))), in.Pos())
 		res := f.invokeIface(n, recv, common.Method, args, in)
 		n.env[in] = res
@@ -304,9 +307,19 @@ func (f *frame) applyContract(n *node, c *Contract, callee *ssa.Function, args [
 		}
 		n.reach = x.g.Fresh(SortBool, and(n.reach, t))
 	}
+	// the state behind interface-typed arguments may change: observers are re-evaluated
+	for _, a := range args {
+		if a.T != nil {
+			if _, ok := a.T.Underlying().(*types.Interface); ok {
+				f.bumpIfaceVersion(n)
+				break
+			}
+		}
+	}
 	// frame: havoc what the callee may modify
 	if c.ModAll {
 		nh, _ := x.havocAll(n.heap, true)
+		x.keepCounters(n.heap, nh)
 		n.heap = nh
 	}
 	if len(c.Modifies) > 0 {
@@ -586,6 +599,18 @@ func (f *frame) intrinsic(n *node, callee *ssa.Function, args []Val) (Val, bool)
 		}
 		*x.modCollect = append(*x.modCollect, modLoc{ptr: a.Bind[0], elems: name == "vcModElems"})
 		return Val{T: callee.Signature.Results()}, true
+	case name == "vcCalls":
+		// vcCalls("callee"): calls of the callee made so far by the function under proof
+		id := ""
+		if f.curCall != nil && len(f.curCall.Call.Args) == 1 {
+			if k, ok := f.curCall.Call.Args[0].(*ssa.Const); ok && k.Value != nil {
+				id = constant.StringVal(k.Value)
+			}
+		}
+		if id == "" {
+			unsup("vcCalls needs a string literal")
+		}
+		return Val{T: types.Typ[types.Int], C: []string{x.getCounter(n.heap, id)}}, true
 	case name == "vcStreamOf" || name == "vcBufferOf":
 		// ghost view of a *bufio.Reader
 		a := args[0]
@@ -639,13 +664,17 @@ func (f *frame) invokeIface(n *node, recv Val, m *types.Func, args []Val, in *ss
 	} else if named, ok := recv.T.(*types.Named); ok {
 		it = named.Obj().Name()
 	}
+	if it == "Type" && m.Pkg() != nil && m.Pkg().Path() == "reflect" && m.Name() == "Kind" {
+		kindOf := x.g.Fun("reflect:kindOfType", []string{SortRef}, SortBV64)
+		return Val{T: in.Type(), C: []string{x.g.Fresh(SortBV64, "("+kindOf+" "+recv.C[1]+")")}}
+	}
 	if c := x.w.Iface[it+"."+m.Name()]; c != nil && c.Pure {
 		// a pure observer: every result component is an uninterpreted function of the
 		// receiver and the arguments (assumption: implementations are deterministic and the
 		// observed object is not modified between the calls that are compared)
 		var terms, sorts []string
-		terms = append(terms, recv.C[0], recv.C[1])
-		sorts = append(sorts, SortTag, SortRef)
+		terms = append(terms, recv.C[0], recv.C[1], f.ifaceVersion(n, recv))
+		sorts = append(sorts, SortTag, SortRef, SortBV64)
 		for _, a := range args {
 			switch {
 			case isString(a.T):
@@ -696,6 +725,7 @@ func (f *frame) invokeIface(n *node, recv Val, m *types.Func, args []Val, in *ss
 		}
 		return res
 	}
+	f.bumpIfaceVersion(n)
 	if c := x.w.Iface[it+"."+m.Name()]; c != nil && !f.spec && !x.inSpec() {
 		pre := n.heap.clone()
 		all := append([]Val{recv}, args...)
@@ -1001,13 +1031,28 @@ func (f *frame) opaqueCall(n *node, callee *ssa.Function, args []Val) (Val, bool
 // call of the named callee: the clause sees the function's own parameters (entry values)
 // and the call's receiver and arguments as a0, a1, ...
 func (f *frame) atCallAssertions(n *node, in *ssa.Call, callee *ssa.Function, args []Val) {
+	f.atCallAssertionsNamed(n, in, funcID(callee), fullName(callee), args)
+}
+
+// ifaceMethodID names an interface method as contracts do: "Writer.WriteInt".
+func ifaceMethodID(recv Val, m *types.Func) string {
+	it := ""
+	if named, ok := m.Type().(*types.Signature).Recv().Type().(*types.Named); ok {
+		it = named.Obj().Name()
+	} else if named, ok := recv.T.(*types.Named); ok {
+		it = named.Obj().Name()
+	}
+	return it + "." + m.Name()
+}
+
+func (f *frame) atCallAssertionsNamed(n *node, in *ssa.Call, id, full string, args []Val) {
 	x := f.x
+	defer f.countCall(n, id, full) // the assertions see the count before this call
 	if x.ctr == nil || len(x.ctr.AtCalls) == 0 || f.spec || x.inSpec() || len(x.stack) != 1 {
 		return
 	}
-	id := funcID(callee)
 	for _, cl := range x.ctr.AtCalls {
-		if cl.Callee != id && cl.Callee != fullName(callee) {
+		if cl.Callee != id && (full == "" || cl.Callee != full) {
 			continue
 		}
 		fn := x.w.ClauseFn[cl.GoFunc]
@@ -1017,6 +1062,13 @@ func (f *frame) atCallAssertions(n *node, in *ssa.Call, callee *ssa.Function, ar
 		var all []Val
 		all = append(all, f.args...)
 		all = append(all, args...)
+		for _, b := range cl.Binder {
+			v := f.localAt(in, b.Name)
+			if v == nil {
+				unsup("atcall %s: no definition of local %q reaches the call at %s", cl.GoFunc, b.Name, x.w.Prog.Fset.Position(in.Pos()))
+			}
+			all = append(all, f.lookup(n, v))
+		}
 		for _, a := range f.args {
 			o := a
 			o.Old = true
@@ -1047,4 +1099,114 @@ func (f *frame) atCallAssertions(n *node, in *ssa.Call, callee *ssa.Function, ar
 		x.oblige("atcall", fmt.Sprintf("%s.%d", cl.Callee, cl.N), cl.Props, and(n.reach, not(t)), f.fn, in.Pos())
 		x.lastObl.Detail, x.lastObl.Clause, x.lastObl.Group = cl.Text, cl, fmt.Sprintf("atcall%d", cl.N)
 	}
+}
+
+// Ghost call counters (`counts <callee>`): the number of calls of the callee made directly
+// by the function under proof so far. They live in the heap, so that joins merge them and
+// loop cuts havoc them (an invariant says what they are); a callee never changes them.
+func counterKey(id string) string { return "ghost:calls:" + id }
+
+func (x *Exec) setCounter(h *Heap, id, v string) {
+	k := counterKey(id)
+	arr := x.hget(h, k, SortBV64, "")
+	x.hset(h, k, SortBV64, "", x.g.Fresh(heapArraySort(SortBV64, ""), "(store "+arr+" "+NilRef+" "+v+")"), NilRef)
+}
+
+func (x *Exec) getCounter(h *Heap, id string) string {
+	arr := x.hget(h, counterKey(id), SortBV64, "")
+	return x.g.Fresh(SortBV64, "(select "+arr+" "+NilRef+")")
+}
+
+func (f *frame) countCall(n *node, id, full string) {
+	x := f.x
+	if x.ctr == nil || len(x.ctr.Counts) == 0 || f.spec || x.inSpec() || len(x.stack) != 1 {
+		return
+	}
+	for _, c := range x.ctr.Counts {
+		if c == id || (full != "" && c == full) {
+			x.setCounter(n.heap, c, "(bvadd "+x.getCounter(n.heap, c)+" "+bvLit(1, 64)+")")
+			for _, ep := range f.activeEpochs(n) {
+				ep.written[counterKey(c)] = true
+			}
+		}
+	}
+}
+
+// keepCounters carries the ghost call counters over a havoc of the whole heap.
+func (x *Exec) keepCounters(pre, post *Heap) {
+	if x.ctr == nil {
+		return
+	}
+	for _, c := range x.ctr.Counts {
+		x.setCounter(post, c, x.getCounter(pre, c))
+	}
+}
+
+// The state observed through pure interface methods is versioned: every call that may
+// change an object behind an interface (a non-pure interface method, a contract call
+// that receives an interface value) moves the ghost version on, and a pure observer is a
+// function of receiver, arguments and the version current at the call. The version lives
+// in the heap (so it is merged at joins, havocked by loops and `modifies *`, and `old`
+// sees the old one).
+const ifaceVerKey = "ghost:ifaceVersion"
+
+func (f *frame) ifaceVersion(n *node, recv Val) string {
+	x := f.x
+	h := n.heap
+	if recv.Old {
+		h = f.heapFor(n, recv)
+	}
+	arr := x.hget(h, ifaceVerKey, SortBV64, "")
+	return x.g.Fresh(SortBV64, "(select "+arr+" "+NilRef+")")
+}
+
+func (f *frame) bumpIfaceVersion(n *node) {
+	x := f.x
+	if f.spec || x.inSpec() {
+		return
+	}
+	arr := x.hget(n.heap, ifaceVerKey, SortBV64, "")
+	v := x.g.Const("ifacever", SortBV64)
+	x.hset(n.heap, ifaceVerKey, SortBV64, "", x.g.Fresh(heapArraySort(SortBV64, ""), "(store "+arr+" "+NilRef+" "+v+")"), NilRef)
+	for _, ep := range f.activeEpochs(n) {
+		ep.written[ifaceVerKey] = true
+	}
+}
+
+// localAt finds the value a named local of the enclosing function holds just before
+// instruction `at`: the nearest preceding reference to the identifier (go/ssa debug
+// references record the value of every use and assignment) or phi that merges it, walking
+// back through single predecessors and otherwise to the immediate dominator (with several
+// predecessors and no phi the variable has the same value on all of them).
+func (f *frame) localAt(at ssa.Instruction, name string) ssa.Value {
+	b := at.Block()
+	idx := len(b.Instrs)
+	for i, ins := range b.Instrs {
+		if ins == at {
+			idx = i
+		}
+	}
+	for steps := 0; b != nil && steps < 10000; steps++ {
+		for i := idx - 1; i >= 0; i-- {
+			switch d := b.Instrs[i].(type) {
+			case *ssa.DebugRef:
+				if id, ok := d.Expr.(*ast.Ident); ok && id.Name == name && !d.IsAddr {
+					return d.X
+				}
+			case *ssa.Phi:
+				if d.Comment == name {
+					return d
+				}
+			}
+		}
+		if len(b.Preds) == 1 {
+			b = b.Preds[0]
+		} else {
+			b = b.Idom()
+		}
+		if b != nil {
+			idx = len(b.Instrs)
+		}
+	}
+	return nil
 }
